@@ -325,9 +325,22 @@ type World struct {
 	Bundles []*Bundle
 	Skipped int // operations that had nothing to act on
 	seq     int
+	kvDir   string
 
 	shortMu   sync.Mutex
 	shortRead *ShortRead
+}
+
+// WorkDir returns a local work directory for a purge command: a new one per call, or - like the CLI's default
+// ./.datamon-index - one and the same for every command of this world
+func (w *World) WorkDir(same bool) string {
+	if !same {
+		return w.Sc.Dir("kv")
+	}
+	if w.kvDir == "" {
+		w.kvDir = w.Sc.Dir("kv-shared")
+	}
+	return w.kvDir
 }
 
 // SetShortRead installs (or with nil removes) a broken-stream plan on the purge process' stores
